@@ -407,6 +407,12 @@ def sweep_cases(seed, quick):
                 if len(ports) == 1 and plan and quick:
                     continue
                 variants.append({"ports": ports, "verb": verb, "bind_plan": plan})
+                if len(ports) > 1:
+                    # alone on the server: it is certainly this session that meets the busy port
+                    # and goes round the port loop a second time
+                    variants.append({"ports": ports, "verb": verb, "bind_plan": plan, "solo": True})
+                    if plan:
+                        variants.append({"ports": ports + [30003], "verb": verb, "bind_plan": {"30001": [list(plan.values())[0][0]], "30002": [errno.EADDRINUSE]}, "solo": True})
     for vi, v in enumerate(variants):
         base = {"seed": seed * 100 + vi, "ports": v["ports"], "bind_plan": v["bind_plan"], "verb": v["verb"], "zero_latency": True, "foreign": [], "final": "probe"}
         win = pilot_window(base)
@@ -417,7 +423,7 @@ def sweep_cases(seed, quick):
             for how in ("rst", "fin", "server_close"):
                 c = dict(base)
                 c["sessions"] = [{"start": 0.0, "ops": [["login"], ["pasv", v["verb"]], ["hold"]]}]
-                if len(v["ports"]) > 1:
+                if len(v["ports"]) > 1 and not v.get("solo"):
                     c["sessions"].append({"start": 0.0, "ops": [["login"], ["pasv", "EPSV"], ["xfer"], ["quit"]]})
                 c["cut"] = {"unit": "step", "k": k, "how": how, "session": 0}
                 if how == "server_close":
